@@ -203,7 +203,7 @@ pub proof fn lemma_opt_items_push(cs: Seq<OPTCode>, c: OPTCode)
                 assert(items.subrange(0, i + 1).last() == items[i]);
             }
 """, where='after')
-    c.ghost(rel, OPT_WF, 'write_to', "Ok(())", "        proof { assert(items.subrange(0, items.len() as int) =~= items); }", where='before')
+    c.ghost_every(rel, OPT_WF, 'write_to', "Ok(())", "        proof { assert(items.subrange(0, items.len() as int) =~= items); }")
 
     # ---- TXT (RFC 1035 3.3.14): one or more <character-string>s
     rel = 'dns/rdata/txt.rs'
@@ -300,7 +300,7 @@ impl<'a> TXT<'a> {
                 assert(items.subrange(0, i + 1).last() == items[i]);
             }
 """)
-    c.ghost(rel, TXT_WF, 'write_to', "Ok(())", "        proof { assert(items.subrange(0, items.len() as int) =~= items); }", where='before')
+    c.ghost_every(rel, TXT_WF, 'write_to', "Ok(())", "        proof { assert(items.subrange(0, items.len() as int) =~= items); }")
 
     # ---- NSEC (RFC 4034 4.1): next domain name (never compressed) + type bit maps with strictly increasing windows
     rel = 'dns/rdata/nsec.rs'
